@@ -26,6 +26,9 @@ type BoundaryCase struct {
 	// its 101 - after the first Dial returned and before the first connection
 	// is read; each must deliver its own messages.
 	S2 *Stream `json:"stream2,omitempty"`
+	// Traced (client): Dial runs through DialContext with an
+	// httptrace.ClientTrace in the context.
+	Traced bool `json:"traced,omitempty"`
 }
 
 func genBoundaryCase(t *rapid.T) BoundaryCase {
@@ -49,6 +52,9 @@ func genBoundaryCase(t *rapid.T) BoundaryCase {
 	if !c.R.Server && rapid.Bool().Draw(t, "second_dial") {
 		s2 := genStream(t, SGenOpts{MaxMsgs: 2, Compression: c.R.Compress, R: c.R.ReadBuf, MaxLen: maxLen})
 		c.S2 = &s2
+	}
+	if !c.R.Server {
+		c.Traced = rapid.IntRange(0, 2).Draw(t, "traced") == 0
 	}
 	c.Rest = genChunks(t, "rest", 300)
 	c.EOFWith = rapid.Bool().Draw(t, "eof_with_last_bytes")
@@ -155,7 +161,17 @@ func checkC17(c BoundaryCase, o *Obs) error {
 				rl = d
 			}
 		}
-		conn, err := dialOver(c.R, tr)
+		var conn *websocket.Conn
+		var err error
+		if c.Traced {
+			var fired int
+			conn, fired, err = dialOverTraced(c.R, tr)
+			if err == nil && fired > 0 {
+				o.Class("client_traced_dial")
+			}
+		} else {
+			conn, err = dialOver(c.R, tr)
+		}
 		if err != nil {
 			return fmt.Errorf("client split %d: Dial failed: %v", k, err)
 		}
